@@ -20,6 +20,7 @@ class MFile:
     extra_assoc: list = field(default_factory=list)  # [(name, [fs])] made by create_associated
     assoc_where: dict = field(default_factory=dict)  # assoc file name -> merged dir name
     sessions_seen: int = 0
+    alias: str = ''                # file name inside the merged directory when merged through a link
     # create_associated may recompute a field set the store already has: the second version lives
     # in the associated file and is what `override=True` serves.  name -> {'fs': [...], 'rows': [...]}
     alt: dict = field(default_factory=dict)
